@@ -62,7 +62,7 @@ def nasa(name, comp, rnd, cov, phase='G'):
                 misc_models=[cov_model(name, rnd)] if cov else None)
 
 
-def nasa9(name, comp, rnd, cov):
+def nasa9(name, comp, rnd, cov, phase='G'):
     import numpy as np
     from pmutt.empirical.nasa import Nasa9, SingleNasa9
 
@@ -72,15 +72,21 @@ def nasa9(name, comp, rnd, cov):
                          rnd.uniform(-1e-15, 1e-15), rnd.uniform(-4e4, -1e4), rnd.uniform(-5., 10.)])
     nasas = [SingleNasa9(T_low=200., T_high=1000., a=coeffs()),
              SingleNasa9(T_low=1000., T_high=6000., a=coeffs())]
-    return Nasa9(name=name, nasas=nasas, elements=dict(comp), phase='G',
+    return Nasa9(name=name, nasas=nasas, elements=dict(comp), phase=phase,
                  misc_models=[cov_model(name, rnd)] if cov else None)
 
 
-def shomate(name, comp, rnd, cov):
+# value of the fitting unit in J/mol/K (own constants; only rescales the input coefficients)
+OWN_UNIT_IN_J = {'J/mol/K': 1.0, 'kJ/mol/K': 1.0e3, 'cal/mol/K': 4.184, 'eV/K': 96485.33}
+
+
+def shomate(name, comp, rnd, cov, phase='G', own='J/mol/K'):
     import numpy as np
     from pmutt.empirical.shomate import Shomate
-    return Shomate(name=name, elements=dict(comp), phase='G', T_low=500., T_high=1700.,
-                   a=np.array(_pert(H2O_SHOMATE, rnd)), units='J/mol/K',
+    own = 'J/mol/K' if own in (None, 'none') else own
+    a = np.array(_pert(H2O_SHOMATE, rnd)) / OWN_UNIT_IN_J[own]
+    return Shomate(name=name, elements=dict(comp), phase=phase, T_low=500., T_high=1700.,
+                   a=a, units=own,
                    misc_models=[cov_model(name, rnd)] if cov else None)
 
 
@@ -114,15 +120,16 @@ def mode(kind, rnd):
     raise ValueError(kind)
 
 
-def species(kind, name, comp, rnd, refs, cov):
+def species(kind, name, comp, rnd, refs, cov, phase='gas', own='none'):
+    ph = 'S' if phase == 'condensed' else 'G'
     if kind == 'StatMech':
         return statmech(name, comp, rnd, refs, cov)
     if kind == 'Nasa':
-        return nasa(name, comp, rnd, cov)
+        return nasa(name, comp, rnd, cov, phase=ph)
     if kind == 'Nasa9':
-        return nasa9(name, comp, rnd, cov)
+        return nasa9(name, comp, rnd, cov, phase=ph)
     if kind == 'Shomate':
-        return shomate(name, comp, rnd, cov)
+        return shomate(name, comp, rnd, cov, phase=ph, own=own)
     raise ValueError(kind)
 
 
@@ -149,7 +156,7 @@ def build(cell, rnd):
         name, comp = rnd.choice(COMPS)
         full = dict(zero)
         full.update(comp)
-        return species(cls, name, comp, rnd, cell['refs'], cell['cov']), full, cls
+        return species(cls, name, comp, rnd, cell['refs'], cell['cov'], cell['phase'], cell['own']), full, cls
     return mode(cls, rnd), zero, 'mode'
 
 
